@@ -113,7 +113,8 @@ impl VariableByteInteger {
             if (b & 0x80) == 0 {
                 // complete
                 return match Self::from_u32(value) {
-                    Some(vbi) => DecodeResult::Ok(vbi, i + 1),
+                    Some(vbi) if vbi.size() == i + 1 => DecodeResult::Ok(vbi, i + 1),
+                    Some(_) => DecodeResult::Err("Non-minimal VariableByteInteger"),
                     None => DecodeResult::Err("Encoding failure"),
                 };
             }
